@@ -290,6 +290,12 @@ async fn run(scn: Value) -> Value {
         if let Some(ms) = b.get("slow_ms").and_then(|x| x.as_u64()) {
             be.slow_ms.store(ms, Ordering::SeqCst);
         }
+        if let Some(p) = b.get("c12_params") {
+            // C12 (additive): this backend's own session defaults / read-only reports (see mockpg::C12_PARAMS)
+            if let Ok(mut g) = mockpg::C12_PARAMS.lock() {
+                g.insert(name.clone(), p.clone());
+            }
+        }
         if let Some(sh) = b.get("shadow").and_then(|x| x.as_object()) {
             // C09: auth_query answers (user -> "md5...")
             let mut g = be.shadow.lock();
@@ -340,11 +346,28 @@ async fn run(scn: Value) -> Value {
                             b.reply_segd.store(d, Ordering::SeqCst);
                         }
                     }
+                    if let Some(r) = step.get("refuse_new").and_then(|x| x.as_bool()) {
+                        // C10: new connections are refused (established sessions keep working) / accepted again;
+                        // returns once the accept loop has dropped / re-opened its listening socket
+                        b.refuse_new.store(r, Ordering::SeqCst);
+                        let t0 = std::time::Instant::now();
+                        while b.listening.load(Ordering::SeqCst) == r && t0.elapsed().as_millis() < 2000 {
+                            tokio::time::sleep(std::time::Duration::from_millis(2)).await;
+                        }
+                        mockpg::log_event(&log, json!({"who": "harness", "ev": "refuse_new", "b": step["b"], "on": r, "listening": b.listening.load(Ordering::SeqCst)}));
+                    }
                     if let Some(g) = step.get("open_gate").and_then(|x| x.as_str()) {
                         b.gates.lock().insert(g.to_string()); // C10: let the statement carrying /*mock:gate=<g>*/ finish
                     }
                     if let Some(hm) = step.get("hang_match") {
                         *b.hang_match.lock() = hm.as_str().map(|x| x.to_string());
+                    }
+                    if let Some(fo) = step.get("fault_on") {
+                        // C07: {"tags": "cf", "kind": "hang"|"close"|"mid"|"mid_hang"} or null to disarm
+                        *b.fault_on.lock() = match (fo.get("tags").and_then(|x| x.as_str()), fo.get("kind").and_then(|x| x.as_str())) {
+                            (Some(t), Some(k)) => Some((t.to_string(), k.to_string())),
+                            _ => None,
+                        };
                     }
                     if step.get("reset_sessions").and_then(|x| x.as_bool()).unwrap_or(false) {
                         b.reset_epoch.fetch_add(1, Ordering::SeqCst);
